@@ -8,6 +8,9 @@ spec (JSON-able, self-contained):
   {"k": "R", "ext": [e0,e1,e2], "ords": [[..],[..],[..]]}          RectilinearMesh
   {"k": "S", "ext": [e0,e1,e2], "dim": d, "points": [[..], ..]}    StructuredMesh
   {"k": "I", "ext": [e0,e1,e2], "origin": [..], "spacing": [..], "basis": [[..]*3] | None}   ImageMesh
+      basis None = constructed WITHOUT `basis=` (standard basis); optional "via": "vti" = the ImageMesh obtained by
+      reading an ascii .vti file with these attributes (Direction attribute iff basis is not None) through the
+      public reader (fcv.history_p5d)
   optional "tol": [abs_tol, rel_tol]  -> set_tolerances(abs_tol=…, rel_tol=…) after construction
 """
 from __future__ import annotations
@@ -37,6 +40,9 @@ def build(spec):
     elif k == "S":
         pts = np.array(spec["points"], dtype=np.float64).reshape(len(spec["points"]), spec["dim"])
         obj = StructuredMesh(tuple(spec["ext"]), pts)
+    elif k == "I" and spec.get("via") == "vti":
+        from . import history_p5d
+        obj = history_p5d.read_vti_image(spec)
     elif k == "I":
         basis = None if spec.get("basis") is None else np.array(spec["basis"], dtype=np.float64)
         obj = ImageMesh(tuple(spec["ext"]), tuple(float(x) for x in spec["origin"]),
